@@ -2,6 +2,7 @@ package gen
 
 import (
 	"fmt"
+	"os"
 	"regexp"
 	"strconv"
 	"strings"
@@ -11,8 +12,8 @@ import (
 	"verif/harness/core"
 )
 
-// KernelPreamble declares the material every kernel function may use.
-const KernelPreamble = `package p
+// KernelHeader is the package clause, import block and import keep-alives of a kernel file.
+const KernelHeader = `package p
 
 import (
 	"bytes"
@@ -56,7 +57,10 @@ var (
 	_ *sql.DB
 )
 
-type S struct {
+`
+
+// KernelDecls declares the material every kernel function may use (once per package).
+const KernelDecls = `type S struct {
 	a, b int
 	s    string
 	f    func() int
@@ -104,6 +108,9 @@ var gs string
 var gxs []int
 var ErrGlobal = errors.New("x")
 `
+
+// KernelPreamble = header + declarations (single-file packages).
+const KernelPreamble = KernelHeader + KernelDecls
 
 // KernelParams is the parameter list shared by all kernel functions.
 const KernelParams = `i, j, n int, u, u2 uint, f, g float64, s, s2, sep string, b, b2 bool, xs, ys []int, ` +
@@ -260,6 +267,8 @@ func (g *ExprGen) Expr(kind string, d int) string {
 		return g.pickS("intlit", "0", "1", "2", "5", "10", "010", "0x10", "0o17", "0b11", "1_0", "'a'", "100")
 	case "strlit":
 		return g.pickS("strlit", `""`, `"a"`, `"abc"`, `"a|b"`, "`x`", `"%s"`, `"'%s'"`, `"\"%s\""`, `"."`, `"/"`, `"%d%%"`, `"%v %"`)
+	case "size":
+		return g.pickS("size", "1", "2", "8", "15", "16", "17", "20", "64", "65", "200", "1000")
 	case "ntype":
 		return g.pickS("ntype", "*S", "[]int", "map[string]int", "func()", "chan int", "<-chan int", "interface{}", "error",
 			"func(int) int", "*[4]int", "[]*S", "**int", "chan<- int", "*int", "func() (int, error)", "any", "Iface")
@@ -314,8 +323,27 @@ func DrawKernelFile(t *rapid.T) []core.Source {
 	n := rapid.IntRange(1, 6).Draw(t, "nkernels")
 	var sb strings.Builder
 	sb.WriteString(KernelPreamble)
+	// one case in three instantiates several kernels of ONE checker family, so that same-named
+	// local declarations, repeated messages and per-checker caches interact within a file
+	sameFamily := rapid.IntRange(0, 2).Draw(t, "sameFamily") == 0
+	var family []Kernel
+	if f := os.Getenv("VERIF_KERNEL_FOCUS"); f != "" {
+		// development aid: restrict to one checker's kernels
+		sameFamily, family = true, KernelsFor(f)
+	}
 	for k := 0; k < n; k++ {
-		kr := Kernels[rapid.IntRange(0, len(Kernels)-1).Draw(t, "kernel")]
+		var kr Kernel
+		if sameFamily && family != nil {
+			kr = family[rapid.IntRange(0, len(family)-1).Draw(t, "familyKernel")]
+		} else {
+			kr = Kernels[rapid.IntRange(0, len(Kernels)-1).Draw(t, "kernel")]
+			if sameFamily {
+				family = KernelsFor(kr.Checker)
+				if n < 2 {
+					n = 2
+				}
+			}
+		}
 		sb.WriteString(RenderKernel(g, kr, k))
 	}
 	return []core.Source{{Name: "k.go", Text: sb.String()}}
